@@ -1,0 +1,15 @@
+//go:build verif
+
+package time
+
+// Simulation hook, only present with the verif build tag (see ../verif_on.go).
+const verifOn = true
+
+// SimYield is called before the timezone cache lock is taken.
+var SimYield func(site string)
+
+func simYield(site string) {
+	if f := SimYield; f != nil {
+		f(site)
+	}
+}
